@@ -17,7 +17,7 @@ import numpy as np
 
 from simkit import engineops as EO
 from simkit import env, spec as S
-from simkit.canon import fenc
+from simkit.canon import fdec, fenc
 from simkit.core import Outcome, Sim, SimCrash, Violation
 from simkit.faults import LineCrasher
 from simkit.rng import Digest
@@ -68,6 +68,7 @@ def _apply_plain(engine, op: dict):
 
 
 def replayed(spec: dict, log: list):
+    S.set_gain(fdec(spec.get("gain0", fenc(1.0))))  # process-global parameter: start where the spec was, the log's edits follow
     e = S.build(spec)
     for op in log:
         apply_single(e, op)
@@ -106,7 +107,7 @@ class C13(Sim):
         "copy_of_a_copy", "edit_copy_then_process_original", "process_other_between_inputs_and_process", "restart_after_abort",
         "toggle_process_restore_process", "linear_or_function_engine_copied", "batch_then_scalar_same_engine",
         "abort_with_rule_already_triggered", "restart_after_crash", "crash_inside_reload_rules", "history_free_checked",
-        "idempotence_checked", "inplace_container_edit", "replace_term_and_restart", "copy_crashed", "shipped_example_engine", "identity_term_chain",
+        "idempotence_checked", "inplace_container_edit", "replace_term_and_restart", "copy_crashed", "shipped_example_engine", "identity_term_chain", "empty_batch",
     ]
 
     def prepare(self) -> None:
@@ -117,7 +118,7 @@ class C13(Sim):
         arm = ["clean", "clean", "faults", "crash"][run % 4]
         general_only = rng.random() < 0.5
         sp = S.gen_spec(rng, activations=["General"] if general_only else S.ACTIVATIONS, fn_reads_output=rng.random() < 0.3,
-                        cascade=rng.random() < 0.5, norm_functions=True)
+                        cascade=rng.random() < 0.5, norm_functions=True, user_terms=["DomainRamp", "InputGain"])
         if rng.random() < 0.5:  # the property's hard cases: make sure a Linear / Function term exists
             o = rng.choice(sp["outputs"])
             if o["family"] == "takagi":
@@ -220,6 +221,9 @@ class C13(Sim):
 
     def _inputs(self, rng, sp, e, vector_ok) -> dict:
         k = rng.choice([1, 1, 1, 2, 4]) if vector_ok else 1
+        if vector_ok and rng.random() < 0.03:
+            # an empty batch (eg a filter that selected no row) is a step like any other: it must leave no trace either
+            return {"op": "inputs", "e": e, "rows": [], "setter": rng.choice(["vars", "matrix"])}
         if sp.get("flags", {}).get("identity_chain") and k == 1 and rng.random() < 0.6:
             return {"op": "inputs", "e": e, "rows": [S.draw_row(rng, sp, 0.05)], "setter": "np0d"}
         return {"op": "inputs", "e": e, "rows": [S.draw_row(rng, sp, rng.choice([0.05, 0.2, 0.4])) for _ in range(k)],
@@ -337,6 +341,8 @@ class C13(Sim):
                     if last_rows_k.get(idx, 1) > 1 and kk == 1:
                         st.hit("probes.batch_then_scalar_same_engine")
                     last_rows_k[idx] = kk
+                    if kk == 0:
+                        st.hit("probes.empty_batch")
                 if k in ("edit", "toggle"):
                     if k == "edit":
                         EO.apply_edit_spec(L.spec_now, op["edit"])
@@ -363,6 +369,14 @@ class C13(Sim):
                 r_real = apply_single(L.engine, op)
                 r_shadow = apply_single(L.shadow, op)
                 L.log.append(op)
+                if k == "edit" and op["edit"]["t"] == "gain0":
+                    # the parameter of the user-defined function element is process-global (like the factory it is registered
+                    # in): the edit is an event in every engine's history
+                    st.hit("probes.user_function_element_parameter_edited")
+                    for j, other in enumerate(live):
+                        if j != idx:
+                            EO.apply_edit_spec(other.spec_now, op["edit"])
+                            other.log.append(op)
                 if inputs_before is not None and not (k == "abort" and op["inj"]["kind"] == "vector"):
                     # "the outputs of a step depend only on the input values of that step" presupposes that the step
                     # does not rewrite them (aliasing of a caller-supplied mutable scalar / array)
@@ -411,6 +425,20 @@ class C13(Sim):
                         st.hit("probes.idempotence_checked")
                         if EO.outputs_of(L.engine) != first:
                             v = viol("processing_twice_gives_different_outputs", i, role=role)
+                elif v is None and k == "process" and r_real is not None and eligible_history_free(L.spec_now):
+                    # the same oracle for a step that raised: with lock-previous off, whether a step raises depends only on
+                    # the configuration and the inputs of that step - a freshly built engine given the same inputs raises too
+                    fresh = S.build(L.spec_now)
+                    for fv, iv in zip(fresh.input_variables, L.engine.input_variables):
+                        fv._value = np.copy(iv.value)
+                    f_exc = EO.process_with(fresh, None)[0]
+                    st.hit("probes.history_free_checked_on_a_raising_step")
+                    if f_exc is None:
+                        v = viol("step_raises_because_of_history", i, role=role, exception=str(r_real),
+                                 inputs=str([EO.cv(iv.value) for iv in L.engine.input_variables])[:200])
+                    elif op.get("twice"):
+                        apply_single(L.engine, op)
+                        apply_single(L.shadow, op)
                 elif v is None and k == "process" and op.get("twice"):
                     apply_single(L.engine, op)
                     apply_single(L.shadow, op)
@@ -559,7 +587,7 @@ class C13(Sim):
                 c = copy.deepcopy(trace)
                 c["ops"][i]["e"] = 0
                 yield c
-            if op["op"] == "inputs":
+            if op["op"] == "inputs" and op["rows"]:
                 for j, val in enumerate(op["rows"][0]):
                     if val != 0.5:
                         c = copy.deepcopy(trace)
